@@ -131,6 +131,11 @@ def gen_soil(rng, profile, zmax=2.3):
                              ("fshape_cr", [8, 16], 0.1)]:
             if rng.random() < p:
                 kwargs[key] = rng.choice(vals)
+    # domain table: the surface-layer depths lie inside the profile as given (before any deepening for the crop)
+    depth = round(sum(kwargs["dz"]), 2) if "dz" in kwargs else (2.0 if typ == "ac_TunisLocal" else 1.2)
+    for key in ("z_cn", "z_germ", "z_top"):
+        if key in kwargs and kwargs[key] > depth - 0.05:
+            del kwargs[key]
     return {"type": typ, "kwargs": kwargs, "layers": layers}
 
 
